@@ -7,7 +7,7 @@ replays a protocol event log of a real execution through the LTS of `Model/MT.le
 
 Event tokens (written by `mt_ev!` in the crate, cfg `hasenbanck_lzma_rust2_verif`):
 `call` `drop` `rt:d:<seq>` `rt:n` `rt:e` – caller; `ct:m` `ct:h:<seq>` `ce:<0|1>` `cs:<r|df|dr|f|e>`
-`cy:<e|r:<seq>|w|d>` `cq:<1 = len < 4|0>` `cp:<seq>` `ca:<active>` `cw:<active>:<len>:<0|1>` `cx:<m|e|x>`
+`cy:<e|r:<seq>|w|d>` `cq:<1 = len < 4|0>` `cp:<seq>` `ca:<active>` `cw:<active>:<len>` `cn` (spawning) `cx:<m|e|x>`
 `cr:<r:<seq>|w|d>` – coordinator; `w<i>:<b|s:<0|1>|p:<seq>|c|w|k|a|o:<seq>|f:<seq>|t:<seq>:<0|1>|d|e|m|x>` – worker `i`.
 -/
 namespace Driver
@@ -68,9 +68,10 @@ def parseEv (t : String) : Option Ev :=
   | ["cq", b] => (parseBool b).map fun b => .c (.qlen b)
   | ["cp", q] => q.toNat?.map fun q => .c (.push q)
   | ["ca", a] => a.toNat?.map fun a => .c (.ldActive a)
-  | ["cw", a, q, d] => match a.toNat?, q.toNat?, parseBool d with
-    | some a, some q, some d => some (.c (.spawn a q d))
-    | _, _, _ => none
+  | ["cw", a, q] => match a.toNat?, q.toNat? with
+    | some a, some q => some (.c (.spawn a q false))
+    | _, _ => none
+  | ["cn"] => some (.c .spawned)
   | ["cx", "m"] => some (.c (.src .more))
   | ["cx", "e"] => some (.c (.src .done))
   | ["cx", "x"] => some (.c (.src .err))
